@@ -88,10 +88,11 @@ func (d *dagStoreImpl) UpdateSpec(name string, spec []byte) error {
 		return fmt.Errorf("%w: %s", errDOGFileNotExist, loc)
 	}
 	// Write the new text next to the file and rename it into place, so that
-	// the definition is never seen (or left behind) half written.
-	tmp := loc + ".tmp"
-	if err := os.WriteFile(tmp, spec, defaultPerm); err != nil {
-		_ = os.Remove(tmp)
+	// the definition is never seen (or left behind) half written. Every save
+	// has a temporary file of its own: with a shared name, two saves at the
+	// same moment would write into the file the other one is renaming.
+	tmp, err := writeTemp(loc, spec)
+	if err != nil {
 		return err
 	}
 	verifPoint("save.written", loc)
@@ -101,6 +102,27 @@ func (d *dagStoreImpl) UpdateSpec(name string, spec []byte) error {
 	}
 	d.metaCache.Invalidate(loc)
 	return nil
+}
+
+// writeTemp writes data to a new file next to loc and returns its name.
+func writeTemp(loc string, data []byte) (string, error) {
+	f, err := os.CreateTemp(filepath.Dir(loc), filepath.Base(loc)+".*.tmp")
+	if err != nil {
+		return "", err
+	}
+	tmp := f.Name()
+	_, err = f.Write(data)
+	if err == nil {
+		err = f.Chmod(defaultPerm)
+	}
+	if cerr := f.Close(); err == nil {
+		err = cerr
+	}
+	if err != nil {
+		_ = os.Remove(tmp)
+		return "", err
+	}
+	return tmp, nil
 }
 
 var errDAGFileAlreadyExists = errors.New("the DAG file already exists")
